@@ -295,6 +295,9 @@ def HParams.toParams (H : HParams κ ι π ν φ ω) : Params κ GroupV TemplV C
   wireFn := H.wireFn
   view := H.view
 
+/-- `d.get(k)` with the equality test of `Msg/Cache.lean` (`DecidableEq`) -/
+def dictGet {α β : Type} [DecidableEq α] (d : Dict α β) (k : α) : Option β := d.lookup k
+
 structure HState (κ ι π ν : Type) where
   heap : Heap π ν
   next : Nat
@@ -362,7 +365,7 @@ def hStageCompiled (s : HState κ ι π ν) (c : Nat) (g : Ref) (t : TemplV) (id
   match H.cacheMax c with
   | none => (s, .ok none)
   | some mx =>
-    match (s.compiled c).lookup (ids, k) with
+    match dictGet (s.compiled c) (ids, k) with
     | some x => (s, .ok (some x))
     | none =>
       match H.compileIds (derefGroup s.heap g) t with
